@@ -2,6 +2,7 @@ import XV.Props.C03
 import XV.Props.C05
 import XV.Lemmas.InvTable
 import XV.Lemmas.InvBlock
+import XV.Lemmas.InvList
 /-!
 C02 — token conservation: supply changes only by coinbase, every token is in one place.
 Theorems about the UTXO table of the L1 chain model. `sumU` is the sum of all rows of table "U";
@@ -693,5 +694,152 @@ theorem blockRun_sum (e : Env) (lh : Int) (prop : String) (isPool : Nat → Bool
       refine ⟨r1, ?_⟩
       rw [r2, c2]
       simp only [List.filter_cons, hp, Bool.false_eq_true, ↓reduceIte]
+
+theorem poolFees_split (e : Env) (pool : List Nat) (p : Nat → Bool) :
+    poolFees e pool = poolFees e (pool.filter p) + poolFees e (pool.filter (fun i => !p i)) :=
+  XV.InvList.sum_filter_split _ pool p
+
+theorem poolFees_same_mem (e : Env) (l1 l2 : List Nat) (h1 : l1.Nodup) (h2 : l2.Nodup) (hm : ∀ x, x ∈ l1 ↔ x ∈ l2) :
+    poolFees e l1 = poolFees e l2 :=
+  XV.InvList.sum_eq_of_same_mem _ l1 l2 h1 h2 hm
+
+/-- **`playForMiner` keeps the pool invariant.** The block is the award (a coinbase without inputs and without fee, fresh
+id not cited by a pending transaction) plus a subset of the pool, ids pairwise distinct; the fees of the confirmed
+transactions move from "pending" to the proposer's rows. The last two hypotheses say that fee placeholders of pending
+transactions are not rows and are not cited (they follow from the stronger invariant `PoolLive`, see `PoolLive` below). -/
+theorem playForMiner_PoolInv (e : Env) (s : St) (lh : Int) (b : Block) (hinv : PoolInv e s)
+    (hnd : b.txs.Nodup) (hid : ∀ i ∈ b.txs, (e.tx i).id = i)
+    (hsub : ∀ i ∈ b.txs, (e.tx i).coinbase = false → i ∈ s.pool)
+    (haward : ∀ i ∈ b.txs, (e.tx i).coinbase = true →
+      (e.tx i).ins = [] ∧ feeOf (e.tx i).outs = 0 ∧ (∀ o, lookup s.U (i, o) = none) ∧
+      (∀ j ∈ s.pool, ∀ r ∈ (e.tx j).ins, r.tx ≠ i))
+    (hfeefree : ∀ i ∈ b.txs, i ∈ s.pool → ∀ idx, feeSlot (e.tx i) idx = true → lookup s.U (i, idx) = none)
+    (hfeecite : ∀ j ∈ s.pool, ∀ r ∈ (e.tx j).ins, r.tx ∈ b.txs → feeSlot (e.tx r.tx) r.off = false) :
+    PoolInv e (playForMiner e s lh b).1 := by
+  unfold playForMiner
+  by_cases h1 : b.pre ≠ some s.pointer
+  · rw [if_pos h1]; exact hinv
+  · rw [if_neg h1]
+    cases hgo : playForMiner.go e lh b b.txs s with
+    | none => exact hinv
+    | some s2 =>
+      simp only
+      have hrun := playForMiner_go_run e lh b b.txs s s2 hgo
+      obtain ⟨fpool, _, _⟩ := blockRun_frame _ _ _ _ _ _ _ hrun
+      obtain ⟨r1, r2⟩ := blockRun_sum e lh b.prop _ b.txs s s2 hrun hnd hid hinv.nodupU
+        (fun i hi hp => by
+          have hc : (e.tx i).coinbase = true := by simpa using hp
+          obtain ⟨a1, a2, a3, _⟩ := haward i hi hc
+          exact ⟨a3, by rw [a1]; simp, fun _ => ⟨a1, a2⟩⟩)
+        (fun i hi hp idx hf => by
+          have hc : (e.tx i).coinbase = false := by simpa using hp
+          exact hfeefree i hi (hsub i hi hc) idx hf)
+      refine ⟨r1, List.Nodup.sublist List.filter_sublist hinv.nodupPool, ?_, ?_, ?_⟩
+      · intro j hj; exact hinv.nonCoinbase j (List.mem_filter.mp hj).1
+      · intro j hj r hr
+        have hjp := (List.mem_filter.mp hj).1
+        simp only
+        apply blockRun_lookup_none _ _ _ _ _ _ _ hrun hid (r.tx, r.off) _ (hinv.insSpent j hjp r hr)
+        intro hm
+        simp only at hm ⊢
+        have hc : (e.tx r.tx).coinbase = false := by
+          cases hcc : (e.tx r.tx).coinbase
+          · rfl
+          · exact absurd rfl ((haward r.tx hm hcc).2.2.2 j hjp r hr)
+        exact ⟨by simp [hc], hfeecite j hjp r hr hm⟩
+      · simp only
+        have hcons := hinv.conservation
+        have hsplit := poolFees_split e s.pool (fun i => b.txs.contains i)
+        have hsame : poolFees e (b.txs.filter (fun i => !(e.tx i).coinbase)) =
+            poolFees e (s.pool.filter (fun i => b.txs.contains i)) := by
+          apply poolFees_same_mem
+          · exact List.Nodup.sublist List.filter_sublist hnd
+          · exact List.Nodup.sublist List.filter_sublist hinv.nodupPool
+          · intro x
+            simp only [List.mem_filter, Bool.not_eq_eq_eq_not, Bool.not_true, List.contains_eq_mem,
+              decide_eq_true_eq]
+            constructor
+            · intro ⟨hx, hc⟩; exact ⟨hsub x hx hc, hx⟩
+            · intro ⟨hx, hb⟩; exact ⟨hb, hinv.nonCoinbase x hx⟩
+        rw [hsame] at r2
+        omega
+
+-- non-vacuity: pool = [1] (fee 2 pending); the miner's block [9 (award 7), 1]: fee paid, award added, invariant kept
+example :
+    let e : Env := { txs := [(1, ⟨1, false, [⟨0, 0, "u0", 5, 0, false⟩], [⟨"u1", 3, 0⟩, ⟨"$", 2, 0⟩], [], []⟩),
+                             (9, ⟨9, true, [], [⟨"miner", 7, 0⟩], [], []⟩)] }
+    let s : St := { U := [((1, 0), ⟨"u1", 3, 0⟩)], total := 5, pool := [1], pointer := 0 }
+    let b : Block := ⟨20, some 0, 1, [9, 1], "miner"⟩
+    PoolInv e s ∧ (playForMiner e s 0 b).2 = .ok ∧ PoolInv e (playForMiner e s 0 b).1 ∧
+      (playForMiner e s 0 b).1.pool = [] ∧ sumU (playForMiner e s 0 b).1.U = 12 ∧ (playForMiner e s 0 b).1.total = 12 := by
+  intro e s b
+  have h0 : PoolInv e s := ⟨by unfold UNodup; decide, by decide, by decide, by decide, by decide⟩
+  refine ⟨h0, by decide, ?_, by decide, by decide, by decide⟩
+  have hff : ∀ i ∈ b.txs, i ∈ s.pool → ∀ p ∈ s.U, p.1.1 = i → feeSlot (e.tx i) p.1.2 = false := by decide
+  apply playForMiner_PoolInv e s 0 b h0 (by decide) (by decide) (by decide) _
+    (fun i hi hp => feeFree_of_rows _ _ _ (hff i hi hp)) (by decide)
+  intro i hi hc
+  have hi9 : i = 9 := by
+    simp only [b, List.mem_cons, List.not_mem_nil, or_false] at hi
+    rcases hi with rfl | rfl
+    · rfl
+    · exact absurd hc (by decide)
+  subst hi9
+  exact ⟨by decide, by decide, lookup_none_of_noid _ _ (by decide), by decide⟩
+
+/-- **`todoBlock` on an empty pool keeps conservation** (`Σ U = total`): the block's transactions have pairwise distinct
+fresh ids and do not cite themselves; the award has no inputs and no fee -/
+theorem todoBlock_conservation (e : Env) (s s' : St) (lh : Int) (b : Block) (h : todoBlock e s lh b = some s')
+    (hinv : PoolInv e s) (hempty : s.pool = [])
+    (hnd : b.txs.Nodup) (hid : ∀ i ∈ b.txs, (e.tx i).id = i)
+    (hfresh : ∀ i ∈ b.txs, ∀ o, lookup s.U (i, o) = none)
+    (hself : ∀ i ∈ b.txs, ∀ r ∈ (e.tx i).ins, r.tx ≠ i)
+    (haward : ∀ i ∈ b.txs, (e.tx i).coinbase = true → (e.tx i).ins = [] ∧ feeOf (e.tx i).outs = 0) :
+    PoolInv e s' ∧ s'.pool = [] ∧ sumU s'.U = s'.total := by
+  unfold todoBlock at h
+  split at h
+  · cases h
+  · split at h
+    · rename_i s2 happ
+      simp only [Option.some.injEq] at h
+      subst h
+      have hrun := applyBlockTxs_run e lh b.prop [] b.txs s s2 happ
+      obtain ⟨fpool, _, _⟩ := blockRun_frame _ _ _ _ _ _ _ hrun
+      obtain ⟨r1, r2⟩ := blockRun_sum e lh b.prop _ b.txs s s2 hrun hnd hid hinv.nodupU
+        (fun i hi _ => ⟨hfresh i hi, hself i hi, haward i hi⟩)
+        (fun i _ hp => by simp at hp)
+      have hcons := hinv.conservation
+      rw [hempty] at hcons
+      have hf : b.txs.filter (fun i => ([] : List Nat).contains i) = [] := by
+        apply List.filter_eq_nil_iff.mpr; intro a _; simp
+      rw [hf] at r2
+      simp only [poolFees, List.map_nil, List.sum_nil] at hcons r2
+      have hp2 : s2.pool = [] := by rw [fpool, hempty]
+      have hsum : sumU s2.U = s2.total := by omega
+      refine ⟨⟨r1, ?_, ?_, ?_, ?_⟩, hp2, hsum⟩
+      · simp only [hp2]; exact List.nodup_nil
+      · simp only [hp2]; intro i hi; cases hi
+      · simp only [hp2]; intro i hi; cases hi
+      · simp only [hp2, poolFees, List.map_nil, List.sum_nil]; omega
+    · cases h
+
+-- non-vacuity: a walk step applying the block [9 (award 7), 1 (5 -> 3 + fee 2)] on an empty pool
+example :
+    let e : Env := { txs := [(1, ⟨1, false, [⟨0, 0, "u0", 5, 0, false⟩], [⟨"u1", 3, 0⟩, ⟨"$", 2, 0⟩], [], []⟩),
+                             (9, ⟨9, true, [], [⟨"miner", 7, 0⟩], [], []⟩)] }
+    let s : St := { U := [((0, 0), ⟨"u0", 5, 0⟩)], total := 5 }
+    let b : Block := ⟨20, some 0, 1, [9, 1], "miner"⟩
+    PoolInv e s ∧ ∃ s', todoBlock e s 0 b = some s' ∧ sumU s'.U = 12 ∧ s'.total = 12 := by
+  intro e s b
+  refine ⟨⟨by unfold UNodup; decide, by decide, by decide, by decide, by decide⟩, ?_⟩
+  cases h : todoBlock e s 0 b with
+  | none => exact absurd h (by decide)
+  | some s' =>
+    refine ⟨s', rfl, ?_⟩
+    have hs : some s' = todoBlock e s 0 b := h.symm
+    have : (todoBlock e s 0 b).map (fun x => (sumU x.U, x.total)) = some (12, 12) := by decide
+    rw [← hs] at this
+    simp only [Option.map_some, Option.some.injEq, Prod.mk.injEq] at this
+    exact this
 
 end XV.C02
